@@ -38,6 +38,12 @@ class Mem
         uint8_t *alloc(size_t n, size_t align, Place pl, Rng *fill, const char *name, int role = R_INPUT, size_t off = 0);
         // big allocation that is not canary-filled nor payload-filled (C15 window etc.)
         void reset(); // drop everything; next alloc sequence gets identical addresses
+        // stack discipline for short-lived buffers: everything allocated after mark() is dropped by release()
+        struct Mark {
+                size_t bump, nbufs;
+        };
+        Mark mark() const { return Mark{ bump_, bufs_.size() }; }
+        void release(const Mark &m);
         int find(uintptr_t addr, long *off) const; // which buffer's slot (incl. its guard pages) holds addr
         const MemBuf &buf(int i) const { return bufs_[i]; }
         MemBuf *lookup(const void *p);
